@@ -1,6 +1,8 @@
 import NibabelModel.Lemmas.C19
 import NibabelModel.Lemmas.C19_Annot
 import NibabelModel.Lemmas.C19_Mgh
+import NibabelModel.Lemmas.C19_Resave
+import NibabelModel.Lemmas.C19_Gen
 /-! Props/C19 — the property theorems for C19 (statements + proofs; helper lemmas live in Lemmas/). -/
 namespace Nb.C19
 open Nb.Gen.C19
@@ -439,6 +441,126 @@ example : ∃ d, setDataShape (imgShape [1, 1, 1, 2]) = .ok d ∧
     (by decide) (by decide) rfl (by decide)
     (by intro zs h; cases h; exact ⟨rfl, by decide, by intro t ht; cases ht; decide, by decide⟩) (by decide)
 
+/-! ## MGH: load → edit → save → load -/
+
+/-- **A loaded MGH file survives being saved again.**  For EVERY byte string `file` that `load` accepts (whatever
+    wrote it: `goodRASFlag` 0 or any other value, any `dof`, a partial or absent footer, FreeSurfer tags after the
+    footer, any `Mdc`/`Pxyz_c`/`delta` patterns), with `L` the header state and `data` the voxels it loads to: after
+    an optional `set_zooms` that keeps the voxel sizes (as many zooms as dimensions, non-negative TR) and any
+    sequence of footer assignments, `save` → `load` yields the same dims (so shape and 3-D/4-D), type code, `dof`,
+    `goodRASFlag`, voxel sizes, `Mdc`/`Pxyz_c` bytes and data, and the footer is the loaded footer with the TR
+    replaced when `set_zooms` got one and the assignments applied in order (`ftrAfter`) — in particular all five
+    footer fields (TR, flip angle, TE, TI, FoV) of the loaded file are kept when nothing is assigned; the file
+    written is `writeMghX` of exactly those fields and ends right after the 20 footer bytes. -/
+theorem mgh_resave_roundtrip (file : Bytes) (L : MghFull) (data : List Nat) (setZ : Option (List Nat))
+    (sets : List (Nat × Nat)) (hb : BytesOk file) (hr : readMghX file = .ok (L, data))
+    (hz : ∀ zs, setZ = some zs → zs.length = ndims L.h.dims ∧ zs.take 3 = L.h.delta ∧
+            L.h.delta.any f32LeZero = false ∧ ∀ t, zs[3]? = some t → f32LtZero t = false ∧ t < 4294967296)
+    (hsets : ∀ p ∈ sets, p.2 < 4294967296) :
+    ∃ bpv, bytesPerVox L.h.code = some bpv ∧
+      mghResave file setZ sets = .ok (L, data,
+        writeMghX { L with h := { L.h with ftr := ftrAfter L.h.ftr setZ sets } } bpv data,
+        { L with h := { L.h with ftr := ftrAfter L.h.ftr setZ sets } }, data) ∧
+      (writeMghX { L with h := { L.h with ftr := ftrAfter L.h.ftr setZ sets } } bpv data).length
+        = footerOffset bpv L.h.dims + ftrItemsize :=
+  mgh_resave_aux file L data setZ sets hb hr hz hsets
+
+/-- `readMghX` refines `readMgh`: same acceptance, same C19 fields -/
+theorem readMghX_refines (bs : Bytes) :
+    (readMghX bs).map (fun r => (r.1.h, r.1.ras, r.2)) = readMgh bs := by
+  unfold readMghX
+  cases readMgh bs with
+  | error e => rfl
+  | ok r => rfl
+
+/-- non-vacuity: a 4-D uint8 file with `goodRASFlag` 0, `dof` 7, all five footer fields non-zero and three tag
+    bytes after the footer; `set_zooms` with a TR and an assignment to `fov` -/
+def exFile : Bytes :=
+  encU32 1 ++ encU32s [2, 1, 1, 2] ++ encU32 0 ++ encU32 7 ++ [0, 0] ++ zeros 254 ++ [9, 255, 3, 4] ++
+    encU32s [5, 6, 7, 8, 9] ++ [1, 2, 3]
+
+example : ∃ bpv, bytesPerVox 0 = some bpv ∧
+    mghResave exFile (some [1065353216, 1065353216, 1065353216, 1157234688]) [(4, 77)] = .ok
+      (⟨⟨⟨2, 1, 1, 2⟩, 0, defDeltaNoRas, [5, 6, 7, 8, 9]⟩, 7, 1, defRasBytes⟩, [9, 255, 3, 4],
+       writeMghX ⟨⟨⟨2, 1, 1, 2⟩, 0, defDeltaNoRas, [1157234688, 6, 7, 8, 77]⟩, 7, 1, defRasBytes⟩ bpv [9, 255, 3, 4],
+       ⟨⟨⟨2, 1, 1, 2⟩, 0, defDeltaNoRas, [1157234688, 6, 7, 8, 77]⟩, 7, 1, defRasBytes⟩, [9, 255, 3, 4]) ∧
+    (writeMghX ⟨⟨⟨2, 1, 1, 2⟩, 0, defDeltaNoRas, [1157234688, 6, 7, 8, 77]⟩, 7, 1, defRasBytes⟩ bpv [9, 255, 3, 4]).length
+      = footerOffset bpv ⟨2, 1, 1, 2⟩ + ftrItemsize :=
+  mgh_resave_roundtrip exFile ⟨⟨⟨2, 1, 1, 2⟩, 0, defDeltaNoRas, [5, 6, 7, 8, 9]⟩, 7, 1, defRasBytes⟩ [9, 255, 3, 4]
+    (some [1065353216, 1065353216, 1065353216, 1157234688]) [(4, 77)] (by unfold BytesOk; decide +kernel)
+    (by decide +kernel)
+    (by intro zs h; cases h; exact ⟨rfl, rfl, by decide, by intro t ht; cases ht; decide⟩) (by decide)
+
+/-- **`_pack_rgb` over the regenerated shifts.**  The model's annotation value `R + G·2^8 + B·2^16` is the dot product
+    of the row with `2 ** shifts` for the shift list extracted from `_pack_rgb` on this run (so every annotation
+    theorem speaks about the shifts the source has now). -/
+theorem pack_rgb_generated (r g b : Int) : packRgb r g b = dotShifts [r, g, b] packShifts :=
+  pack_rgb_generated_aux r g b
+
+example : packRgb 10 20 30 = dotShifts [10, 20, 30] packShifts ∧ packRgb 10 20 30 = 1971210 :=
+  ⟨pack_rgb_generated _ _ _, by decide⟩
+
+/-- **`write_morph_data` accepts exactly** the vector shapes with at most `np.iinfo(<literal>).max` values and a face
+    count within `np.iinfo(<literal>)` — limits regenerated from the source. -/
+theorem morph_writer_limits_generated (shape : List Nat) (vals : List Nat) (fnum : Int) :
+    (∃ f, writeMorph shape vals fnum = .ok f) ↔
+      (morphAccepts shape = true ∧ (prod shape : Int) ≤ morphCountMax ∧ morphFnumMin ≤ fnum ∧ fnum ≤ morphFnumMax) :=
+  morph_writer_limits_generated_aux shape vals fnum
+
+example : ∃ f, writeMorph [2, 1] [1, 2] (-2147483648) = .ok f :=
+  (morph_writer_limits_generated [2, 1] [1, 2] (-2147483648)).mpr (by decide)
+example : ¬ ∃ f, writeMorph [2, 1] [1, 2] 2147483648 = .ok f :=
+  fun h => absurd ((morph_writer_limits_generated [2, 1] [1, 2] 2147483648).mp h) (by decide)
+
+/-- **open finding `annot:unsigned-labels-overflow` (pinned tree).**  With a label array of an unsigned dtype the
+    writer fails with OverflowError for EVERY valid annotation (table with its fifth column or `fill_ctab`, labels
+    inside the table): `np.max(labels, initial=-1)` cannot represent -1. -/
+theorem annot_unsigned_labels_witness (labels : List Int) (ctab : List Row) (has5 : Bool) (names : List Bytes)
+    (fill : Bool) (hf : fill = true ∨ has5 = true) (hl : ∀ l ∈ labels, 0 ≤ l ∧ l < ctab.length) :
+    writeAnnotUnsigned labels ctab has5 names fill = .error .overflow := by
+  have hfc : ∃ c', fillCtab fill has5 ctab = .ok c' ∧ c'.length = ctab.length := by
+    unfold fillCtab
+    rcases hf with rfl | rfl
+    · exact ⟨_, rfl, by simp⟩
+    · cases fill
+      · exact ⟨_, rfl, rfl⟩
+      · exact ⟨_, rfl, by simp⟩
+  obtain ⟨c', hc, hlen⟩ := hfc
+  have hcl : ∀ ls : List Int, (∀ l ∈ ls, 0 ≤ l ∧ l < ctab.length) → ∃ cs, clutLabels (c'.map (·.a)) ls = .ok cs := by
+    intro ls
+    induction ls with
+    | nil => exact fun _ => ⟨[], rfl⟩
+    | cons l t ih =>
+      intro h
+      obtain ⟨cs, hcs⟩ := ih (fun x hx => h x (List.mem_cons_of_mem _ hx))
+      have hl' := h l (List.mem_cons_self ..)
+      have hidx : ∃ a, indexPy (c'.map (·.a)) l = .ok a := by
+        unfold indexPy
+        have h1 : ¬ l < 0 := by omega
+        have h2 : l.toNat < (c'.map (·.a)).length := by rw [List.length_map, hlen]; omega
+        simp only [h1, if_false]
+        rw [List.getElem?_eq_getElem h2]
+        exact ⟨_, rfl⟩
+      obtain ⟨a, ha⟩ := hidx
+      exact ⟨(if l = -1 then 0 else a) :: cs, by simp only [clutLabels, clutLabel, ha, hcs]⟩
+  obtain ⟨cs, hcs⟩ := hcl labels hl
+  simp only [writeAnnotUnsigned, writeAnnotWith, hc, hcs]
+
+example : writeAnnotUnsigned [0] [⟨1, 0, 0, 0, 0⟩] false [[97]] true = .error .overflow :=
+  annot_unsigned_labels_witness _ _ _ _ _ (Or.inl rfl) (by decide)
+
+/-- **Proposed repair of `write_annot` for `annot:empty-ctab-unlabeled-vertices` is conservative.**  Looking up only
+    the labelled vertices (`clutLabelsFixed`) gives the SAME annotation values whenever the present lookup succeeds
+    (so every file written today is written byte-identically), and succeeds with all-zero values for any number of
+    unlabeled vertices whatever the table — including the empty one, where the present code raises IndexError. -/
+theorem annot_fix_proposal_conservative (avals : List Int) :
+    (∀ ls cs, clutLabels avals ls = .ok cs → clutLabelsFixed avals ls = .ok cs) ∧
+    (∀ n, clutLabelsFixed avals (List.replicate n (-1)) = .ok (List.replicate n 0)) :=
+  ⟨clutLabelsFixed_conservative avals, clutLabelsFixed_unlabeled avals⟩
+
+example : clutLabels [] [-1] = .error .index ∧ clutLabelsFixed [] [-1] = .ok [0] ∧
+    clutLabels [7, 9] [1, -1, 0] = .ok [9, 0, 7] ∧ clutLabelsFixed [7, 9] [1, -1, 0] = .ok [9, 0, 7] := by decide
+
 /-! ## generated constants (re-checked against the source on every run) -/
 
 /-- the constants the model relies on, as extracted from the working tree: header/footer layouts tile
@@ -459,5 +581,13 @@ theorem gen_constants_consistent :
     volKeysW = [kHead, kValid, kFilename, kVolume, kVoxelsize, kXras, kYras, kZras, kCras] ∧
     volKeysR = volKeysW.tail ∧ noFile.length + 1 < 2147483648 ∧
     defRasBytes.length + 42 = hdrItemsize ∧ defDeltaNoRas.length = 3 ∧ (∀ b ∈ defRasBytes, b < 256) := by decide
+
+/-- the constants added in the third wave: the version `chk_version` accepts is the default one the writer emits, the
+    `goodRASFlag` a header without RAS information ends up with is a non-zero 16-bit value, the shift list of
+    `_pack_rgb` and the limits of `write_morph_data` are the int32 ones the codecs use. -/
+theorem gen_constants_consistent_wave3 :
+    versionOk = defVersion ∧ versionOk = 1 ∧ 0 < defGoodNoRas ∧ defGoodNoRas < 65536 ∧ defGoodNoRas = defGoodRAS ∧
+    packShifts = [0, 8, 16] ∧ morphCountMax = 2147483647 ∧ morphFnumMin = -2147483648 ∧ morphFnumMax = 2147483647 ∧
+    (∀ v ∈ defDeltaNoRas, v < 4294967296) := by decide
 
 end Nb.C19
